@@ -69,8 +69,13 @@ class Check:
     """One run of one property's check.  Drivers call .mc(), .judged(), .violation(), .note() and finally
     .finish() which writes the evidence file, prints VIOLATION / KNOWN-FINDING lines and returns the exit code."""
 
-    def __init__(self, pid, level="model_checking"):
+    def __init__(self, pid, level=None):
         self.pid = pid
+        if level is None:       # one source of truth with MANIFEST.json: the category claimed in tools/claimed.json
+            try:
+                level = json.load(open(os.path.join(VERIF, "tools", "claimed.json")))[pid].get("category", "model_checking")
+            except (OSError, KeyError, ValueError):
+                level = "model_checking"
         self.level = level
         self.tier = tier()
         self.seed = seed()
